@@ -61,6 +61,7 @@ pub fn generate(ctx: &Ctx, rng: &mut Rng, tier: &str) -> String {
         overhead.map(|d| d.in_sec().unwrap().to_string()).unwrap_or("-".to_string())
     ));
     let steps = if tier == "thorough" { rng.range(5, 20) } else { rng.range(2, 6) };
+    let steer = rng.chance(50);
     let max_dump = if tier == "thorough" { 200 } else { 80 };
     let mut base = ScheduleWithInfo::new(base0, SwapInfo::NoSwap, "start".to_string());
     for step in 0..steps {
@@ -91,13 +92,41 @@ pub fn generate(ctx: &Ctx, rng: &mut Rng, tier: &str) -> String {
                 // dump (a sample of) the candidates in full
                 let stride = (cands.len() + max_dump - 1) / max_dump;
                 let offset = rng.below(stride as u64) as usize;
+                // hand-overs from a dummy tour are rare and checked less by the modifications: always dumped
+                let mut extra = 0;
                 for (k, c) in cands.iter().enumerate() {
-                    if k % stride == offset {
+                    let from_dummy = c.get_print_text().contains("from dummy");
+                    if k % stride == offset || (from_dummy && extra < 40) {
+                        if k % stride != offset {
+                            extra += 1;
+                        }
                         s.push_str(&format!("T cand {} {}\n", k, c.get_print_text().replace(' ', "_")));
                         s.push_str(&ctx.dump_schedule("S", c.get_schedule()));
                     }
                 }
-                let next = rng.below(cands.len() as u64) as usize;
+                // half of the steps are steered towards states the random walk rarely reaches: maintenance
+                // slots held by dummy tours, and such slots filling up again
+                let next = if steer && rng.chance(60) {
+                    let score = |c: &ScheduleWithInfo| -> usize {
+                        let sch = c.get_schedule();
+                        let mut sc = 0;
+                        for d in sch.dummy_iter() {
+                            if let Ok(t) = sch.tour_of(d) {
+                                for n in t.all_nodes_iter() {
+                                    if ctx.nw.node(n).is_maintenance() {
+                                        sc += 10 + 3 * sch.train_formation_of(n).vehicle_count() as usize;
+                                    }
+                                }
+                            }
+                        }
+                        sc
+                    };
+                    let best = cands.iter().map(|c| score(c)).max().unwrap_or(0);
+                    let idx: Vec<usize> = (0..cands.len()).filter(|&k| score(&cands[k]) == best).collect();
+                    idx[rng.below(idx.len() as u64) as usize]
+                } else {
+                    rng.below(cands.len() as u64) as usize
+                };
                 s.push_str(&format!("T chosen {}\n", next));
                 base = cands[next].clone();
             }
